@@ -131,6 +131,7 @@ func cmdFunc(args []string) {
 	safety := fs.Bool("safety", true, "")
 	dump := fs.Bool("dump", false, "print failing queries")
 	keep := fs.String("keep", "", "directory to keep non-discharged queries in")
+	alloc := fs.Bool("alloc", false, "emit allocation-bound obligations (C14)")
 	fs.Parse(args)
 	s, err := openSession(*repo, *vdir, *tier, 0)
 	if err != nil {
@@ -145,7 +146,7 @@ func cmdFunc(args []string) {
 	bad := 0
 	for _, k := range keys {
 		fc := s.cf.Funcs[k]
-		rep := s.m.verifyFunction(k, fc, verifyOpts{safety: *safety, safetyProp: []string{"C14"}})
+		rep := s.m.verifyFunction(k, fc, verifyOpts{safety: *safety, safetyProp: []string{"C14"}, allocCheck: *alloc})
 		s.m.solveAll(s.smt, rep.Obligs, 16)
 		fmt.Printf("== %s: paths=%d obligations=%d", k, rep.Paths, len(rep.Obligs))
 		if rep.Unsup != "" {
